@@ -22,6 +22,7 @@ import (
 	"path/filepath"
 	"runtime"
 	"runtime/debug"
+	"runtime/pprof"
 	"strings"
 
 	"github.com/nspcc-dev/neo-go/pkg/vm/opcode"
@@ -56,9 +57,20 @@ func emit(k int, c *vcase) vres {
 	for _, p := range c.pre {
 		before = append(before, append([]byte{}, p.script...))
 	}
+	var m0 runtime.MemStats
+	if os.Getenv("VMOPS_ALLOC") != "" {
+		runtime.ReadMemStats(&m0)
+	}
 	trace = true
 	r1 := execReal(c)
 	trace = false
+	if os.Getenv("VMOPS_ALLOC") != "" {
+		var m1 runtime.MemStats
+		runtime.ReadMemStats(&m1)
+		if d := m1.TotalAlloc - m0.TotalAlloc; d > 100<<20 {
+			fmt.Fprintf(os.Stderr, "ALLOC %dMB case %d %s -> %s\n", d>>20, k, trunc(op), trunc(r1.obs))
+		}
+	}
 	r2 := execReal(c)
 	if r1.obs != r2.obs || r1.gas != r2.gas {
 		o.Fail("nondeterministic", k, "two runs of the same script bytes differ: %q vs %q (%s)", r1.obs, r2.obs, op)
@@ -120,6 +132,12 @@ func seenKey(c *vcase) string {
 func main() {
 	runtime.GOMAXPROCS(3) // the machine is shared; the GC workers of 16 Ps only burn system time
 	debug.SetGCPercent(400)
+	debug.SetMemoryLimit(3 << 30) // a case that makes the real VM allocate gigabytes must not raise the GC goal for the rest of the run
+	if os.Getenv("VMOPS_GC") != "" {
+		var n int
+		fmt.Sscan(os.Getenv("VMOPS_GC"), &n)
+		debug.SetGCPercent(n)
+	}
 	f := hx.ParseFlags()
 	o = hx.NewOut(f.Out)
 	defer o.Close()
@@ -128,6 +146,7 @@ func main() {
 	corpus := append(append(append(buildCorpus(), multiCorpus()...), budgetCorpus()...), aliasCorpus()...)
 	// the coverage matrix follows the hand-written corpus (cases nCorpus .. nCorpus+len(matrix)-1)
 	nCorpus := len(corpus)
+	heavyMatrix = f.Tier == "thorough"
 	matrix := buildMatrix()
 	for _, mc := range matrix {
 		matrixRegister(mc)
@@ -289,6 +308,14 @@ func main() {
 		if k >= len(corpus) && k < len(corpus)+3 {
 			o.Sample(c.opLine() + " -> " + res.obs)
 		}
+	}
+	if hp := os.Getenv("VMOPS_HEAP"); hp != "" {
+		var ms runtime.MemStats
+		runtime.ReadMemStats(&ms)
+		fmt.Fprintf(os.Stderr, "Sys=%dMB HeapSys=%dMB HeapInuse=%dMB StackSys=%dMB NumGC=%d TotalAlloc=%dMB\n", ms.Sys>>20, ms.HeapSys>>20, ms.HeapInuse>>20, ms.StackSys>>20, ms.NumGC, ms.TotalAlloc>>20)
+		fh, _ := os.Create(hp)
+		pprof.WriteHeapProfile(fh)
+		fh.Close()
 	}
 	pipe.finish()
 	// the coverage obligations are enforced on complete runs only (not on a single-case replay)
